@@ -3,8 +3,8 @@
 (* conflict bookkeeping, clone() copying a given set of fields) against the   *)
 (* declarative layer, for <= MaxPre edits of the original, Clone, and any     *)
 (* interleaving of <= MaxPost edits applied to both / the original only / the *)
-(* clone only.  The invariants quantify over the *next* edit as well, so the  *)
-(* acceptance of MaxPost + 1 edits after the clone is covered.                *)
+(* clone only (<= MaxTotal edits in all).  The invariants quantify over the   *)
+(* *next* edit as well, so the acceptance of one more edit is covered.        *)
 (*                                                                            *)
 (* One run explores several configurations chosen in Init: a problem class    *)
 (* and one field `miss` that clone() does not copy ("none" = clone() copies   *)
@@ -23,7 +23,7 @@
 (*                              clone are built before _initial_defaults is   *)
 (*                              assigned)                                     *)
 EXTENDS ModelClone
-CONSTANTS MaxPre, MaxPost,
+CONSTANTS MaxPre, MaxPost, MaxTotal,   \* bounds: npre <= MaxPre, npost <= MaxPost, npre + npost <= MaxTotal
           Small,      \* TRUE: one representative edit per rule
           Configs,    \* "code": per class "none" + the fields its clone() misses; "full": "none" only;
                       \* "fields": every field of AllFields on its own (sensitivity of the invariants);
@@ -62,7 +62,7 @@ Init == \E k \in ClsSet : \E b \in {<<"none", FALSE>>, <<"f", k # "ma">>} :
 
 SpecNext(p, e) == SpecStep(p, e, SpecAcc(p, e) = "")
 
-Pre(e) == /\ ~cloned /\ npre < MaxPre
+Pre(e) == /\ ~cloned /\ npre < MaxPre /\ npre < MaxTotal
           /\ o' = ImplStep(o, e) /\ so' = SpecNext(so, e)
           /\ npre' = npre + 1
           /\ UNCHANGED <<cls, miss, c, sc, cloned, sync, npost>>
@@ -71,7 +71,7 @@ DoClone(m) == /\ ~cloned
               /\ c' = ImplClone(o, AllFields \ {m}) /\ sc' = SpecClone(so)
               /\ cloned' = TRUE
               /\ UNCHANGED <<cls, o, so, sync, npre, npost>>
-Post(e, tgt) == /\ cloned /\ npost < MaxPost
+Post(e, tgt) == /\ cloned /\ npost < MaxPost /\ npre + npost < MaxTotal
                 /\ IF tgt \in {"both", "o"} THEN o' = ImplStep(o, e) /\ so' = SpecNext(so, e)
                                             ELSE UNCHANGED <<o, so>>
                 /\ IF tgt \in {"both", "c"} THEN c' = ImplStep(c, e) /\ sc' = SpecNext(sc, e)
